@@ -124,13 +124,23 @@ package memfs
 //@   field nodes guarded_by mu
 //@   field index guarded_by mu
 //@   field time guarded_by mu
-//@ define isNode(x iface) bool = (typeis(x, "*memfs.Dir") || typeis(x, "*memfs.File")) && payload(x) != 0 && allocated(payload(x))
+//@ tracktype [C01 C09] memfs.Dir memfs.File
+//@ define typedNode(x iface) bool = (typeis(x, "*memfs.Dir") && hastype(payload(x), "memfs.Dir")) || (typeis(x, "*memfs.File") && hastype(payload(x), "memfs.File"))
+//@ define isNode(x iface) bool = typedNode(x) && allocated(payload(x))
 //@ define nodeName(x iface) string = ite(typeis(x, "*memfs.Dir"), as(x, "*memfs.Dir").name, as(x, "*memfs.File").name)
 // representation invariant: list and index describe the same set of normally named nodes
-//@ define DirInv(d ref) bool = d.index != nil && len(d.index) == len(d.nodes)
-//@ ... && forall(k, 0 <= k && k < len(d.nodes) ==> isNode(d.nodes[k]) && Normal(nodeName(d.nodes[k])) && has(d.index, nodeName(d.nodes[k])) && d.index[nodeName(d.nodes[k])] == d.nodes[k])
+//@ define opaque DirInv(d ref) bool = d.index != nil && len(d.index) == len(d.nodes) && arr(d.nodes) != 0 && allocated(arr(d.nodes)) && allocated(ref(d.index))
+//@ ... && forall(k, 0 <= k && k < len(d.nodes) ==> typedNode(d.nodes[k]) && Normal(nodeName(d.nodes[k])) && has(d.index, nodeName(d.nodes[k])) && d.index[nodeName(d.nodes[k])] == d.nodes[k])
+//@ ... && forall(k, 0 <= k && k < len(d.nodes) ==> allocated(payload(d.nodes[k])))
 //@ ... && forall(a, forall(b, 0 <= a && a < b && b < len(d.nodes) ==> nodeName(d.nodes[a]) != nodeName(d.nodes[b])))
-//@ ... && foralls(s, has(d.index, s) ==> isNode(d.index[s]) && nodeName(d.index[s]) == s)
+//@ ... && foralls(s, has(d.index, s) ==> typedNode(d.index[s]) && nodeName(d.index[s]) == s)
+//@ ... && foralls(s, has(d.index, s) ==> allocated(payload(d.index[s])))
+// the whole tree: every directory object satisfies the representation invariant and owns
+// its index map and its listing array (no two directories share either)
+//@ define Tree() bool = forallp(r, dyntype(r), isa(r, "memfs.Dir") ==> DirInv(ptr(r, "memfs.Dir")))
+//@ ... && forallp(r1, dyntype(r1), forallp(r2, dyntype(r2), isa(r1, "memfs.Dir") && isa(r2, "memfs.Dir") && r1 != r2 ==> ref(ptr(r1, "memfs.Dir").index) != ref(ptr(r2, "memfs.Dir").index) && arr(ptr(r1, "memfs.Dir").nodes) != arr(ptr(r2, "memfs.Dir").nodes)))
+// a listing array that no directory owns
+//@ define Unowned(a int) bool = forallp(r, dyntype(r), isa(r, "memfs.Dir") ==> arr(ptr(r, "memfs.Dir").nodes) != a)
 //@ iface os.FileInfo.Name(self) (s)
 //@   pure
 //@   ensures isNode(self) ==> s == nodeName(self)
@@ -167,6 +177,8 @@ package memfs
 //@   ensures err != nil ==> dir == nil
 // addNode: atomic check-and-insert; rejected when the name exists, nothing changes then
 //@ func (*Dir).addNode [C01 C09]
+//@   requires Tree() && isa(d, "memfs.Dir")
+//@   ensures Tree()
 //@   requires DirInv(d) && isNode(newNode) && Normal(nodeName(newNode))
 //@   modifies memfs.Dir.nodes, M:string:fs.FileInfo, E:fs.FileInfo, $maplen
 //@   ensures DirInv(d)
@@ -180,6 +192,9 @@ package memfs
 // error, otherwise a new empty directory is added; the name must be a normal name (never
 // empty, dot or dot-dot): this is what keeps phantom nodes out of the tree
 //@ func (*Dir).mkdir [C01 C09]
+//@   allocates memfs.Dir
+//@   requires Tree() && isa(d, "memfs.Dir")
+//@   ensures Tree()
 //@   requires DirInv(d) && Normal(name)
 //@   modifies memfs.Dir.nodes, M:string:fs.FileInfo, E:fs.FileInfo, $maplen
 //@   ensures DirInv(d)
@@ -192,6 +207,8 @@ package memfs
 
 // removeNodeByName: succeeds exactly when the name is present; the other nodes keep their order
 //@ func (*Dir).removeNodeByName [C01 C09]
+//@   requires Tree() && isa(d, "memfs.Dir")
+//@   ensures Tree()
 //@   requires DirInv(d)
 //@   modifies memfs.Dir.nodes, M:string:fs.FileInfo, E:fs.FileInfo, $maplen
 //@   ensures DirInv(d)
@@ -199,6 +216,7 @@ package memfs
 //@   ensures result != nil ==> forall(k, 0 <= k && k < len(d.nodes) ==> nodeName(d.nodes[k]) != name)
 //@   ensures foralls(s, s != name ==> has(d.index, s) == old(has(d.index, s)) && d.index[s] == old(d.index[s]))
 //@   ensures result != nil ==> len(d.nodes) == old(len(d.nodes)) && forall(k, 0 <= k && k < len(d.nodes) ==> d.nodes[k] == old(d.nodes[k]))
+//@   loop 1 invariant Tree()
 //@   loop 1 invariant 0 <= i && i <= len(d.nodes) && DirInv(d) && held(d.mu)
 //@   loop 1 invariant forall(k, 0 <= k && k < i ==> nodeName(d.nodes[k]) != name)
 //@   loop 1 invariant ref(d.index) == old(ref(d.index)) && len(d.nodes) == old(len(d.nodes)) && foralls(s, has(d.index, s) == old(has(d.index, s)) && d.index[s] == old(d.index[s])) && forall(k, 0 <= k && k < len(d.nodes) ==> d.nodes[k] == old(d.nodes[k]))
@@ -207,9 +225,14 @@ package memfs
 // a new directory over the given nodes (distinct normal names); the listing slice is adopted
 //@ func NewDir [C01]
 //@   modifies $none
+//@   allocates memfs.Dir
+//@   requires Tree() && arr(nodes) != 0 && Unowned(arr(nodes))
+//@   ensures Tree()
 //@   requires forall(k, 0 <= k && k < len(nodes) ==> isNode(nodes[k]) && Normal(nodeName(nodes[k])))
 //@   requires forall(a, forall(b, 0 <= a && a < b && b < len(nodes) ==> nodeName(nodes[a]) != nodeName(nodes[b])))
 //@   ensures result != nil && fresh(result) && fresh(ref(result.index)) && result.name == name && DirInv(result) && len(result.nodes) == len(nodes)
+//@   loop 1 invariant forallp(r, dyntype(r), isa(r, "memfs.Dir") ==> old(allocated(r)) || r == ref(dir))
+//@   loop 1 invariant arr(dir.nodes) == arr(nodes) && off(dir.nodes) == off(nodes) && allocated(ref(dir.index)) && allocated(dir)
 //@   loop 1 invariant -1 <= $i && $i < len(dir.nodes) && dir.index != nil && fresh(ref(dir.index)) && fresh(dir) && dir.name == name && len(dir.nodes) == len(nodes) && len(dir.index) == $i + 1
 //@   loop 1 invariant forall(k, 0 <= k && k < len(nodes) ==> dir.nodes[k] == nodes[k] && isNode(nodes[k]) && old(allocated(payload(nodes[k]))) && Normal(nodeName(nodes[k])))
 //@   loop 1 invariant forall(a, forall(b, 0 <= a && a < b && b < len(nodes) ==> nodeName(nodes[a]) != nodeName(nodes[b])))
@@ -218,4 +241,5 @@ package memfs
 //@   loop 1 invariant forall(k, $i < k && k < len(nodes) ==> !has(dir.index, nodeName(nodes[k])))
 //@ func NewFile [C01 C04]
 //@   modifies $none
+//@   allocates memfs.File
 //@   ensures result != nil && fresh(result) && result.name == name && result.data == data
